@@ -456,9 +456,30 @@ func (c *component) feedRaces(t *testing.T, out string) (violated bool) {
 		}
 		seen[key] = true
 		vkit.AddExtra("data_races_with_close/"+c.name, 1)
-		detail := b
-		if len(detail) > 2500 {
-			detail = detail[:2500] + "..."
+		// first line: both accesses with their call chains (innermost first, file lines dropped);
+		// then the detector's report
+		var sum []string
+		for _, st := range stacks[:2] {
+			var chain []string
+			hdr := ""
+			for _, ln := range strings.Split(st, "\n") {
+				ln = strings.TrimSpace(ln)
+				switch {
+				case ln == "":
+				case hdr == "":
+					hdr = strings.TrimSuffix(ln, ":")
+				case strings.HasPrefix(ln, "/") || strings.HasPrefix(ln, "<autogenerated>"):
+				default:
+					if len(chain) < 6 {
+						chain = append(chain, strings.TrimSuffix(strings.TrimPrefix(ln, "tunnox-core/"), "()"))
+					}
+				}
+			}
+			sum = append(sum, hdr+": "+strings.Join(chain, " < "))
+		}
+		detail := "DATA RACE " + strings.Join(sum, "  ||  ") + "\n" + strings.TrimSpace(b)
+		if len(detail) > 3500 {
+			detail = detail[:3500] + "..."
 		}
 		if vkit.IsKnown(key) {
 			vkit.Violation(t, key, detail, Round{Comp: c.name})
